@@ -1,5 +1,6 @@
 import Utv.Lemmas.C20
 import Utv.Lemmas.C20Reg
+import Utv.Lemmas.C20Reg2
 import Utv.Lemmas.C20Term
 /-!
 C20 — concurrent use is safe, including the first use of a type.
@@ -256,7 +257,7 @@ theorem C20_registry_cache_consistent (W : Utv.C16.World) (co lg : Bool) (g : Re
   let I := Reg.inv_run (co := co) sched (Reg.inv_init (lg := lg) hn hc)
   ⟨I.ent, I.cache⟩
 
-/-! ### The hypothesis `noRegister` is needed: a registration that races with a lookup -/
+/-! ### Before the register-race fix the hypothesis `noRegister` was needed: a registration racing with a lookup -/
 
 /-- class 2 is a subclass of class 1 -/
 def Wr : Utv.C16.World where
@@ -284,14 +285,105 @@ theorem C20_registry_legacy_keyerror_witness :
       = [.fn (some 20), .keyError] := by
   decide +kernel
 
-/-- With the lookup patch no error escapes, but a registration that races with a lookup can still be lost for
-the class being looked up: thread 0 has found the old converter, thread 1 registers a better one and clears the
+/-- Before fixes/C20-register-race.patch (with the lookup patch no error escapes, but) a registration that races
+with a lookup could still be lost for the class being looked up: thread 0 has found the old converter, thread 1 registers a better one and clears the
 cache, thread 0 stores the old converter — the *next* lookup (started after the registration returned) still
-gets the old one although the registry now selects the new one.  (Known finding `register-races-with-lookup`.) -/
+gets the old one although the registry now selects the new one.  (Finding `register-races-with-lookup`, fixed: see
+`C20_registry_linearizable` / `C20_registry_cache_never_stale` below for the code as it is now.) -/
 theorem C20_registry_register_race_witness :
     let s := Reg.run Wr true false (Reg.init gB raceProg) [0,0,0, 1,1,1,1, 0,0]
     (s.th 0).outs = [.fn (some 20), .fn (some 20)] ∧ (s.th 1).pc = .fin
       ∧ Reg.answer Wr s.g.entries 2 = some 30 := by
+  decide +kernel
+
+
+/-! ## The registry after fixes/C20-register-race.patch: lookups *and registrations* in any interleaving
+
+Model `Utv/Model/C20Reg2.lean`: `register` publishes a new sorted list under a lock after clearing the cache and counts
+the registration; `resolve` reads the counter before it takes the list and fills the cache, under the lock, only if no
+registration happened since.  Full statement (no `noRegister` hypothesis any more): -/
+
+/-- **C20, registry with registrations.**  For every class world, cache on/off, initial registry with a consistent
+cache, every program of lookups and registrations per thread and every schedule: every finished lookup of a class `c`
+returned `answer W v c` for a list `v` that was the published registry at some moment between the start of that lookup
+(`lo`) and its return (`hi`) — old or new for a lookup that overlaps a registration, the new one for every lookup that
+starts after `register` has returned.  The ghost witnesses `wits` pair up with the results `outs`. -/
+theorem C20_registry_linearizable (W : Utv.C16.World) (co : Bool) (entries : List Utv.C16.Entry)
+    (cache : List (Nat × Nat)) (prog : Nat → List Reg.Op) (hc : Reg.CacheOK W entries cache)
+    (sched : List Nat) (k : Nat) :
+    let s := Reg2.run W co (Reg2.init entries cache prog) sched
+    ((s.th k).outs.length = (s.th k).wits.length) ∧
+    (∀ (i : Nat) (r : Reg.Res) (w : Reg2.Wit), (s.th k).outs[i]? = some r → (s.th k).wits[i]? = some w →
+        r = .fn (Reg.answer W (s.g.vers.getD w.j []) w.cls) ∧ w.lo ≤ w.j ∧ w.j ≤ w.hi ∧ w.hi < s.g.vers.length) ∧
+    ((s.th k).wits.map (·.cls) <+: Reg2.classes (prog k)) := by
+  have I := (Reg2.inv_run (co := co) sched (Reg2.inv_init prog hc)).1
+  have T := I.tinv k
+  exact ⟨T.wit.length, fun i r w hr hw => T.wit.get i r w hr hw, ⟨_, T.hist⟩⟩
+
+/-- The cache is never stale — in *every* reachable state (not only when nobody is running) each cached converter is
+the one the published list selects; so no lookup, however late, can pick up a converter that a returned `register`
+has replaced.  (The seeded "clear before insert" and the pre-fix "fill after clear" both break exactly this.) -/
+theorem C20_registry_cache_never_stale (W : Utv.C16.World) (co : Bool) (entries : List Utv.C16.Entry)
+    (cache : List (Nat × Nat)) (prog : Nat → List Reg.Op) (hc : Reg.CacheOK W entries cache) (sched : List Nat) :
+    let s := Reg2.run W co (Reg2.init entries cache prog) sched
+    Reg.CacheOK W s.g.entries s.g.cache :=
+  (Reg2.inv_run (co := co) sched (Reg2.inv_init prog hc)).1.ginv.cache
+
+/-- The published lists are exactly the successive results of the sequential `register` of the C16 model: the first
+is the initial registry, each next one is `sortPrio (e :: previous)`, the last is the one in effect; the generation
+counter counts them (it lags by one only while the registering thread is between its two assignments). -/
+theorem C20_registry_versions (W : Utv.C16.World) (co : Bool) (entries : List Utv.C16.Entry)
+    (cache : List (Nat × Nat)) (prog : Nat → List Reg.Op) (hc : Reg.CacheOK W entries cache) (sched : List Nat) :
+    let s := Reg2.run W co (Reg2.init entries cache prog) sched
+    (∃ l, s.g.vers = entries :: l) ∧ s.g.vers.getLast? = some s.g.entries ∧ Reg2.Chain s.g.vers ∧
+      (s.g.lock = none → s.g.gen + 1 = s.g.vers.length) := by
+  obtain ⟨I, e⟩ := Reg2.inv_run (co := co) sched (Reg2.inv_init prog hc)
+  obtain ⟨l, hl⟩ := e.vers
+  exact ⟨⟨l, by simpa [Reg2.init] using hl⟩, I.ginv.last, I.ginv.chain, I.ginv.free⟩
+
+/-- the registry lock is held by at most one thread, and only inside `with self._lock:` -/
+theorem C20_registry_lock_exclusive (W : Utv.C16.World) (co : Bool) (entries : List Utv.C16.Entry)
+    (cache : List (Nat × Nat)) (prog : Nat → List Reg.Op) (hc : Reg.CacheOK W entries cache) (sched : List Nat)
+    (j k : Nat)
+    (hj : ((Reg2.run W co (Reg2.init entries cache prog) sched).th j).pc.holds = true)
+    (hk : ((Reg2.run W co (Reg2.init entries cache prog) sched).th k).pc.holds = true) : j = k := by
+  have I := (Reg2.inv_run (co := co) sched (Reg2.inv_init prog hc)).1
+  have h1 := (I.tinv j).lockI.mp hj
+  have h2 := (I.tinv k).lockI.mp hk
+  rw [h1] at h2; exact Option.some.inj h2
+
+/-- no dead-lock on the registry lock: whoever holds it is at a line it can execute -/
+theorem C20_registry_no_deadlock (W : Utv.C16.World) (co : Bool) (entries : List Utv.C16.Entry)
+    (cache : List (Nat × Nat)) (prog : Nat → List Reg.Op) (hc : Reg.CacheOK W entries cache) (sched : List Nat)
+    (o : Nat) (hl : (Reg2.run W co (Reg2.init entries cache prog) sched).g.lock = some o) :
+    let t := (Reg2.run W co (Reg2.init entries cache prog) sched).th o
+    t.pc ≠ .fin ∧ t.pc ≠ .rlock ∧ t.pc ≠ .wlock := by
+  have I := (Reg2.inv_run (co := co) sched (Reg2.inv_init prog hc)).1
+  have h := (I.tinv o).lockI.mpr hl
+  refine ⟨?_, ?_, ?_⟩ <;> intro hp <;> simp [hp, Reg2.PC.holds] at h
+
+/-- Programs that only look up (the earlier theorem, now for the fixed code): every finished lookup returned what it
+returns alone on the initial registry. -/
+theorem C20_registry_lookups_only_fixed (W : Utv.C16.World) (co : Bool) (entries : List Utv.C16.Entry)
+    (cache : List (Nat × Nat)) (prog : Nat → List Reg.Op) (hn : ∀ k, Reg.noRegister (prog k) = true)
+    (hc : Reg.CacheOK W entries cache) (sched : List Nat) (k : Nat) :
+    ((Reg2.run W co (Reg2.init entries cache prog) sched).th k).outs
+      <+: (Reg2.classes (prog k)).map (fun c => Reg.Res.fn (Reg.answer W entries c)) := by
+  have I := (Reg2.inv_run (co := co) sched (Reg2.inv_init prog hc)).1
+  have hv : (Reg2.run W co (Reg2.init entries cache prog) sched).g.vers = [entries] :=
+    Reg2.noReg_run (W := W) (co := co) sched (s := Reg2.init entries cache prog)
+      (fun j => ⟨by simpa [Reg2.init] using hn j, by simp [Reg2.init, Reg2.PC.isW]⟩)
+  have T := I.tinv k
+  rw [T.wit.single hv, ← T.hist, List.map_append, List.map_map]
+  exact ⟨_, rfl⟩
+
+/-- the race that was the known finding `register-races-with-lookup`, now on the fixed model: thread 0 has found the
+old converter, thread 1 registers a better one, thread 0 comes back — it does *not* fill the cache (its generation is
+out of date), and the next lookup gets the new converter -/
+example :
+    let s := Reg2.run Wr true (Reg2.init [eB] [] raceProg) ([0,0,0,0] ++ List.replicate 7 1 ++ List.replicate 12 0)
+    (s.th 0).outs = [.fn (some 20), .fn (some 30)] ∧ (s.th 0).pc = .fin ∧ (s.th 1).pc = .fin
+      ∧ s.g.cache = [(2, 30)] := by
   decide +kernel
 
 end Utv.C20
